@@ -176,10 +176,12 @@ const (
 	evPollWithExt
 	evPollWithoutExt
 	evPollRejected
+	evDeniedMixed // client denials, restricted and unrestricted in turn
+	evIdleMixed   // idle polls, with and without the relay-pattern extension in turn
 	nEvents
 )
 
-var evName = []string{"idle-poll", "client-denied(restricted)", "client-denied(unrestricted)", "matched", "poll-with-relay-ext", "poll-without-relay-ext", "poll-rejected"}
+var evName = []string{"idle-poll", "client-denied(restricted)", "client-denied(unrestricted)", "matched", "poll-with-relay-ext", "poll-without-relay-ext", "poll-rejected", "client-denied(restricted/unrestricted in turn)", "idle-poll(with/without relay extension in turn)"}
 
 func parseMetricsLog(s string) map[string]string {
 	m := map[string]string{}
@@ -226,6 +228,11 @@ type c19mWorld struct {
 	log2     string
 	prom     float64
 	promName string
+	promWant int // -1: n
+	// a second published series (kinds that feed two label combinations)
+	prom2     float64
+	prom2Name string
+	prom2Want int
 }
 
 func init() {
@@ -234,7 +241,7 @@ func init() {
 		Horizon:  72 * time.Hour,
 		MaxSteps: 100000,
 		Body: func(x *vs.X) {
-			mw := &c19mWorld{}
+			mw := &c19mWorld{promWant: -1}
 			x.User = mw
 			mw.ev = vs.Choose("event", nEvents)
 			mw.n = c19Counts[vs.Choose("count", len(c19Counts))]
@@ -279,14 +286,33 @@ func init() {
 					bad := "example.com$"
 					p.pattern = &bad
 					w.runProxy(p)
+				case evDeniedMixed:
+					nat := "restricted"
+					if i%2 == 1 {
+						nat = "unrestricted"
+					}
+					c := w.addClient(nat, "", 0, viaIPC)
+					w.runClient(c)
+				case evIdleMixed:
+					p := w.addProxy(NATUnrestricted, "standalone", 0, 0, ansNever)
+					if i%2 == 1 {
+						p.pattern = nil
+					}
+					w.runProxy(p)
 				}
 			}
 			for i := 0; i < mw.n; i++ {
 				doEvent(i)
 			}
 			switch mw.ev {
-			case evIdle:
+			case evIdle, evIdleMixed:
 				mw.promName, mw.prom = "snowflake_rounded_proxy_poll_total{status=idle}", w.promCounter("snowflake_rounded_proxy_poll_total", map[string]string{"status": "idle"})
+			case evDeniedMixed:
+				// one published series per NAT label: each is judged on its own
+				mw.promName, mw.prom = "snowflake_rounded_client_poll_total{nat=restricted,status=denied}", w.promCounter("snowflake_rounded_client_poll_total", map[string]string{"status": "denied", "nat": "restricted"})
+				mw.promWant = (mw.n + 1) / 2
+				mw.prom2Name, mw.prom2 = "snowflake_rounded_client_poll_total{nat=unrestricted,status=denied}", w.promCounter("snowflake_rounded_client_poll_total", map[string]string{"status": "denied", "nat": "unrestricted"})
+				mw.prom2Want = mw.n / 2
 			case evDeniedRestricted, evDeniedUnrestricted:
 				mw.promName, mw.prom = "snowflake_rounded_client_poll_total{status=denied}", w.promCounter("snowflake_rounded_client_poll_total", map[string]string{"status": "denied"})
 			case evMatched:
@@ -322,18 +348,25 @@ func init() {
 			}
 			var oc []string
 			for period, lg := range []string{mw.log, mw.log2} {
-				n := mw.n
+				n, start := mw.n, 0
 				if period == 1 {
-					n = mw.n2
+					n, start = mw.n2, mw.n
 				}
 				if c := strings.Count(lg, "snowflake-stats-end"); c != 1 {
 					x.Fail("metrics-log", "period-not-logged-once", "period %d: the metrics log holds %d period headers, want 1", period+1, c)
 					continue
 				}
-				oc = append(oc, mw.judgePeriod(x, period+1, n, lg))
+				oc = append(oc, mw.judgePeriod(x, period+1, start, n, lg))
 			}
-			if uint64(mw.prom) != ceil8(uint64(mw.n)) {
-				x.Fail("rounded-up-to-8", "prometheus-counter-wrong:"+strings.SplitN(mw.promName, "{", 2)[0], "%d x %s: %s = %v, want %d", mw.n, evName[mw.ev], mw.promName, mw.prom, ceil8(uint64(mw.n)))
+			pw := mw.n
+			if mw.promWant >= 0 {
+				pw = mw.promWant
+			}
+			if uint64(mw.prom) != ceil8(uint64(pw)) {
+				x.Fail("rounded-up-to-8", "prometheus-counter-wrong:"+strings.SplitN(mw.promName, "{", 2)[0], "%d x %s: %s = %v, want ceil8(%d) = %d", mw.n, evName[mw.ev], mw.promName, mw.prom, pw, ceil8(uint64(pw)))
+			}
+			if mw.prom2Name != "" && uint64(mw.prom2) != ceil8(uint64(mw.prom2Want)) {
+				x.Fail("rounded-up-to-8", "prometheus-counter-wrong:"+strings.SplitN(mw.prom2Name, "{", 2)[0], "%d x %s: %s = %v, want ceil8(%d) = %d", mw.n, evName[mw.ev], mw.prom2Name, mw.prom2, mw.prom2Want, ceil8(uint64(mw.prom2Want)))
 			}
 			x.Outcome(strings.Join(oc, " || ") + fmt.Sprintf(" prom=%v", mw.prom))
 		},
@@ -462,8 +495,11 @@ type c19Period struct {
 }
 
 // judgePeriod compares one period's metrics log with the true event counts of that period.
-func (mw *c19mWorld) judgePeriod(x *vs.X, period, n int, lg string) string {
+func (mw *c19mWorld) judgePeriod(x *vs.X, period, start, n int, lg string) string {
 	m := parseMetricsLog(lg)
+	// events start..start+n-1 fell into this period; the even-numbered ones are of the first kind
+	even := (start+n+1)/2 - (start+1)/2
+	odd := n - even
 	want := map[string]int{
 		"snowflake-idle-count": 0, "client-denied-count": 0, "client-restricted-denied-count": 0, "client-unrestricted-denied-count": 0,
 		"client-snowflake-match-count": 0, "snowflake-proxy-poll-with-relay-url-count": 0, "snowflake-proxy-poll-without-relay-url-count": 0, "snowflake-proxy-rejected-for-relay-url-count": 0,
@@ -483,6 +519,10 @@ func (mw *c19mWorld) judgePeriod(x *vs.X, period, n int, lg string) string {
 		want["snowflake-idle-count"], want["snowflake-proxy-poll-without-relay-url-count"] = n, n
 	case evPollRejected:
 		want["snowflake-proxy-poll-with-relay-url-count"], want["snowflake-proxy-rejected-for-relay-url-count"] = n, n
+	case evDeniedMixed:
+		want["client-denied-count"], want["client-restricted-denied-count"], want["client-unrestricted-denied-count"] = n, even, odd
+	case evIdleMixed:
+		want["snowflake-idle-count"], want["snowflake-proxy-poll-with-relay-url-count"], want["snowflake-proxy-poll-without-relay-url-count"] = n, even, odd
 	}
 	var keys []string
 	for k := range want {
